@@ -1,6 +1,7 @@
 package c08
 
 import (
+	"encoding/binary"
 	"context"
 	"fmt"
 	"os"
@@ -377,7 +378,7 @@ func (h *harness) hostile(s Step) error {
 	case "return":
 		sentID = h.pickID(s.IDK, h.connQuestions, nil)
 		live := has(h.connQuestions, sentID)
-		v := s.Var % 6
+		v := s.Var % 9
 		desc = fmt.Sprintf("Return(answer %d, variant %d)", sentID, v)
 		if live {
 			allow("silent")
@@ -402,6 +403,37 @@ func (h *harness) hostile(s Step) error {
 				r.SetTakeFromOtherQuestion(12345)
 			case 4:
 				r.Struct.SetUint16(6, 17) // unknown union member
+			case 6, 7:
+				// results whose content pointer (6) / an exception whose reason pointer (7) leads out of the segment:
+				// a pointer to a struct of a size nothing else in the message has is written, then its offset is bent
+				var owner capnp.Struct
+				if v == 6 {
+					p, _ := r.NewResults()
+					owner = p.Struct
+				} else {
+					e, _ := r.NewException()
+					owner = e.Struct
+				}
+				mark, _ := capnp.NewStruct(owner.Segment(), capnp.ObjectSize{DataSize: 8, PointerCount: 5})
+				owner.SetPtr(0, mark.ToPtr())
+				data := owner.Segment().Data()
+				for off := 0; off+8 <= len(data); off += 8 {
+					if w := binary.LittleEndian.Uint64(data[off:]); w>>32 == 0x0005_0001 && w&3 == 0 {
+						binary.LittleEndian.PutUint64(data[off:], 0x0005_0001_0000_0000|uint64(0x0ffffff0)<<2)
+					}
+				}
+				if live {
+					allow("silent", "abort")
+				}
+			case 8:
+				p, _ := r.NewResults()
+				l, _ := p.NewCapTable(1)
+				pa, _ := l.At(0).NewReceiverAnswer()
+				pa.SetQuestionId(0xfffffff0) // an answer that never existed
+				p.SetContent(capnp.NewInterface(p.Segment(), 0).ToPtr())
+				if live {
+					allow("silent", "abort")
+				}
 			default:
 				p, _ := r.NewResults()
 				p.SetContent(capnp.NewInterface(p.Segment(), 9).ToPtr()) // cap index out of range
@@ -815,6 +847,14 @@ var hostileKinds = []string{"bootstrap", "call-import", "call-answer", "call-bad
 func genCase(t *rapid.T) Case {
 	c := Case{NoBootstrap: rapid.IntRange(0, 7).Draw(t, "noboot") == 0}
 	kinds := []string{"ping", "keep-ping", "held-call", "err-call", "ok-call", "open", "app-bootstrap", "app-call", "hostile", "hostile", "hostile", "hostile", "corrupt", "release-race"}
+	if rapid.IntRange(0, 5).Draw(t, "skeleton") == 0 {
+		// a local caller waiting for the peer, then a Return for exactly that question
+		c.Steps = append(c.Steps, Step{K: "app-bootstrap"})
+		if rapid.Bool().Draw(t, "sk-call") {
+			c.Steps = append(c.Steps, Step{K: "app-call"})
+		}
+		c.Steps = append(c.Steps, Step{K: "hostile", H: "return", IDK: 1, Var: rapid.IntRange(0, 8).Draw(t, "sk-var")})
+	}
 	for i, n := 0, rapid.IntRange(1, 10).Draw(t, "n"); i < n; i++ {
 		s := Step{K: rapid.SampledFrom(kinds).Draw(t, "k")}
 		switch s.K {
@@ -824,7 +864,10 @@ func genCase(t *rapid.T) Case {
 				s.H = "level2"
 			}
 			s.IDK = rapid.IntRange(0, 3).Draw(t, "idk")
-			s.Var = rapid.IntRange(0, 11).Draw(t, "var")
+			s.Var = rapid.IntRange(0, 17).Draw(t, "var")
+			if s.H == "return" && rapid.Bool().Draw(t, "live") {
+				s.IDK = 1 // answers to questions the Conn really has open are where a caller can be left hanging
+			}
 		case "corrupt":
 			s.Var = rapid.IntRange(0, 50).Draw(t, "var")
 			s.Mut = rapid.SliceOfN(rapid.IntRange(0, 255), 0, 6).Draw(t, "mut")
@@ -839,7 +882,7 @@ func genCase(t *rapid.T) Case {
 
 var _ = pbt.Register(pbt.Spec[Case]{
 	Property: "C08", Name: "hostile-peer",
-	Rule:  "histories of up to 10 steps against a live rpc.Conn over a harness-owned transport: valid traffic that creates live table entries (Bootstrap pings kept open, calls held inside a local server object, local Bootstrap()/calls pending at the peer) interleaved with hostile messages built with the rpc.capnp schema: Bootstrap/Call/Finish/Return/Release/Disembargo naming fresh, live, finished, never-used and 2^32-1 ids; calls to absent exports and absent/finished promised answers with transforms up to field 300; params with capability descriptors of every kind incl. non-existent receiverHosted ids; raw unknown union tags; non-struct params; sendResultsTo != caller; Returns of every variant incl. capability tables naming absent exports; over-release; level-2 messages; Unimplemented; Abort; and byte-corrupted/truncated frames. Oracle after every offending message: the process lives (crash journal), and the connection is either alive (a later marker message is echoed and a fresh Bootstrap on a reserved id gets its correct Return) or aborted (at most one Abort as last message, transport closed, Done() closed); the offence is answered by one of the outcomes the protocol allows for it (exception/results Return, Unimplemented echo, Abort, or nothing for messages that are in fact legal); finally Close() returns, every local call resolves, bootstrap clients release. Non-trivial: an offending message arrived while >=1 table entry was live.",
+	Rule:  "histories of up to 10 steps against a live rpc.Conn over a harness-owned transport: valid traffic that creates live table entries (Bootstrap pings kept open, calls held inside a local server object, local Bootstrap()/calls pending at the peer) interleaved with hostile messages built with the rpc.capnp schema: Bootstrap/Call/Finish/Return/Release/Disembargo naming fresh, live, finished, never-used and 2^32-1 ids; calls to absent exports and absent/finished promised answers with transforms up to field 300; params with capability descriptors of every kind incl. non-existent receiverHosted ids; raw unknown union tags; non-struct params; sendResultsTo != caller; Returns of every variant incl. capability tables naming absent exports or absent answers, content/exception pointers leading out of the segment, aimed at questions a local caller is waiting on (1 in 6 cases starts with local Bootstrap [+ call] and a Return for that question); over-release; level-2 messages; Unimplemented; Abort; and byte-corrupted/truncated frames. Oracle after every offending message: the process lives (crash journal), and the connection is either alive (a later marker message is echoed and a fresh Bootstrap on a reserved id gets its correct Return) or aborted (at most one Abort as last message, transport closed, Done() closed); the offence is answered by one of the outcomes the protocol allows for it (exception/results Return, Unimplemented echo, Abort, or nothing for messages that are in fact legal); finally Close() returns, every local call resolves, bootstrap clients release. Non-trivial: an offending message arrived while >=1 table entry was live.",
 	Quick: 10000, Thorough: 60000,
 	Gen: genCase,
 	Run: run,
